@@ -1,6 +1,18 @@
 HOOK_COMMITS = []
 NOT_APPLICABLE = {}
 CHECKS = {
+ "C01": {
+  "level": "exploration",
+  "technique": "runtime monitor: seeded API histories under GC/reference schedules; differential ApiSnapshot live vs fresh re-open, executable TreeModel, raw flat-container audit",
+  "text": "Hundreds (quick) to thousands (thorough) of seeded histories of public operations (create every basic object/group class, data of every kind, values, rename, flags, metadata, move, move data, copy, remove through workspace or parent, property-group create/add/remove/delete, comments, files, intermediate close/re-open, listings, gc points) run under gc plans {default, off, every op, seeded} x reference policies {strong, refetch by uid, drop}. At every close the public view taken just before close, the public view of a fresh read-only Workspace and a reference model of what the user's calls determine must agree field by field, and the flat containers must hold exactly the model's entities. Held on the counted histories only.",
+  "note": "Trusted: h5py, my ApiSnapshot walker (public getters only) and TreeModel (conservative core). Names within a parent are unique by construction; protected-descendant removals are not generated.",
+ },
+ "C02": {
+  "level": "exploration",
+  "technique": "runtime monitor: independent plain-h5py layout validator (object addresses, link classes, reference structure) run on every closed file of seeded histories incl. cross-workspace copies, failing writes and drillhole groups",
+  "text": "An independent validator written from the format documents (one project group, containers, Root hard link to a Groups node, names == ID attributes, no uid twice across containers, Type hard link to the same HDF5 object as the node under Types, every child entry a hard link to the flat node, exactly one parent, reachability from Root, property groups listing only data children) is evaluated on every file closed during seeded histories that stress copies into a second workspace, removals, re-parenting of groups/objects/data, refused removals, writes that fail half-way and concatenated drillhole groups. Held on the counted files only.",
+  "note": "Validity is the documented layout, not Geoscience ANALYST itself. Known finding C02-parent-removal-leaves-node is reported as KNOWN-FINDING; duplicate-uid requests are exercised under C06, not here.",
+ },
  "C17": {
   "level": "exploration",
   "technique": "runtime monitor: independent format-formula oracle + fresh-object differential over enumerated grid shapes and seeded setter histories",
